@@ -14,6 +14,7 @@
 package conn
 
 import (
+	"encoding/binary"
 	"errors"
 	"fmt"
 	"net"
@@ -29,6 +30,26 @@ import (
 	"github.com/willf/bitset"
 	"go.uber.org/zap"
 )
+
+// unmarshalBitfield decodes a bitfield sent by a remote peer. The binary form
+// starts with the number of bits, and bitset.UnmarshalBinary allocates that
+// many bits before it reads any data, so the declared size is first checked
+// against the number of bytes which were actually received.
+func unmarshalBitfield(data []byte) (*bitset.BitSet, error) {
+	const headerSize = 8
+	if len(data) >= headerSize {
+		nbits := binary.BigEndian.Uint64(data)
+		if nbits > uint64(len(data)-headerSize)*8 {
+			return nil, fmt.Errorf(
+				"invalid bitfield: %d bits declared, %d bytes of data", nbits, len(data)-headerSize)
+		}
+	}
+	b := bitset.New(0)
+	if err := b.UnmarshalBinary(data); err != nil {
+		return nil, err
+	}
+	return b, nil
+}
 
 // RemoteBitfields represents the bitfields of an agent's peers for a given torrent.
 type RemoteBitfields map[core.PeerID]*bitset.BitSet
@@ -51,8 +72,8 @@ func (rb RemoteBitfields) unmarshalBinary(rbBytes map[string][]byte) error {
 		if err != nil {
 			return fmt.Errorf("peer id: %s", err)
 		}
-		bitfield := bitset.New(0)
-		if err := bitfield.UnmarshalBinary(bitfieldBytes); err != nil {
+		bitfield, err := unmarshalBitfield(bitfieldBytes)
+		if err != nil {
 			return err
 		}
 		rb[peerID] = bitfield
@@ -114,8 +135,8 @@ func handshakeFromP2PMessage(m *p2p.Message) (*handshake, error) {
 	if err != nil {
 		return nil, fmt.Errorf("name: %s", err)
 	}
-	bitfield := bitset.New(0)
-	if err := bitfield.UnmarshalBinary(bitfieldMsg.BitfieldBytes); err != nil {
+	bitfield, err := unmarshalBitfield(bitfieldMsg.BitfieldBytes)
+	if err != nil {
 		return nil, err
 	}
 	remoteBitfields := make(RemoteBitfields)
